@@ -267,6 +267,8 @@ def gen_callable(rng, entries, bases_of, self_idx, where, knobs):
             # at most one super call per body and it is the last forwarding call (stale MRO index otherwise)
             fw = gen_forward(rng, entries, bases_of, self_idx, where if b == nb - 1 else ("meth" if where == "init" else where))
             if fw is not None and (rng.random() < 0.85 or not got):
+                if rng.random() < knobs["p_nested"]:
+                    add_nested(rng, fw, own, knobs["p_get"])
                 uses.append({"g": {"branch": b}, "u": fw})
                 got = True
             if not got:  # every branch of the chain holds at least one use (an empty branch swallows kwargs)
@@ -283,6 +285,8 @@ def gen_callable(rng, entries, bases_of, self_idx, where, knobs):
         return c
     fw = gen_forward(rng, entries, bases_of, self_idx, where, allow_attr=True)
     if fw is not None:
+        if rng.random() < knobs["p_nested"]:
+            add_nested(rng, fw, own, knobs["p_get"])
         uses.append({"g": "a", "u": fw})
     return c
 
@@ -301,7 +305,7 @@ def valid_bases(bases_of, idx_new, bases):
 
 def gen_program(rng, knobs=None):
     """a random program of the mini language (harness form: the model JSON plus python names/values)"""
-    knobs = dict({"p_get": 0.08, "p_unused": 0.04, "p_cond": 0.10, "p_const": 0.08, "p_noinit": 0.2}, **(knobs or {}))
+    knobs = dict({"p_get": 0.08, "p_unused": 0.04, "p_cond": 0.10, "p_const": 0.08, "p_noinit": 0.2, "p_nested": 0.3}, **(knobs or {}))
     n_cls = rng.choice([1, 2, 3, 3, 4, 4, 5, 6])
     n_fn = rng.choice([0, 0, 1, 2, 3])
     kinds = ["cls"] * n_cls + ["fn"] * n_fn
@@ -360,8 +364,39 @@ def render_sig(c, first):
     return ", ".join(parts)
 
 
-def render_args(k, given):
-    return ", ".join(["1"] * k + ["%s=1" % g for g in given] + ["**kwargs"])
+def nested_of(h):
+    """reads of kwargs written inside the argument list, in evaluation (= AST) order: positional slots, then keyword slots"""
+    ns = h.get("nested") or []
+    out = [x for i in range(h["k"]) for x in ns if x["slot"] == ["pos", i]]
+    out += [x for g in h["given"] for x in ns if x["slot"] == ["kw", g]]
+    return out
+
+
+def render_read(x):
+    e = "kwargs.%s(%r, %s)" % (x["kind"], x["name"], lit(x["dflt"]))
+    return {"plain": e, "mul": "(%s * 4)" % e, "str": "str(%s)" % e, "list": "[%s]" % e}[x.get("wrap", "plain")]
+
+
+def render_args(k, given, nested=None):
+    slot = {tuple(x["slot"]): render_read(x) for x in (nested or [])}
+    return ", ".join([slot.get(("pos", i), "1") for i in range(k)] + ["%s=%s" % (g, slot.get(("kw", g), "1")) for g in given] + ["**kwargs"])
+
+
+def add_nested(rng, u, own, p_get):
+    """fill some hard-coded slots of a forwarding call with kwargs.pop/get expressions"""
+    h = fwd_part(u)
+    slots = [["pos", i] for i in range(h["k"])] + [["kw", g] for g in h["given"]]
+    if not slots or "attr" in u:
+        return
+    h["nested"] = []
+    for sl in rng.sample(slots, rng.choice([1, 1, 2]) if len(slots) > 1 else 1):
+        pool = [x for x in NAMES if x not in own] or [FRESH + "4"]
+        nm = rng.choice(pool)
+        if sl[0] == "kw" and sl[1] not in own and rng.random() < 0.3:
+            nm = sl[1]  # the rename-free pass-through f(a=kwargs.pop('a', d), **kwargs)
+        d = rng.choice(POP_DEFAULTS)
+        wraps = ["plain", "plain", "str", "list"] + (["mul"] if d is not None else [])
+        h["nested"].append({"slot": sl, "kind": "get" if rng.random() < p_get else "pop", "name": nm, "dflt": d, "wrap": rng.choice(wraps)})
 
 
 def fwd_part(u):
@@ -385,7 +420,7 @@ def render_use(u, prog, self_idx, n):
     if "super" in u:
         s = u["super"]
         sup = "super()" if s["frm"] is None else "super(%s, self)" % prog["entries"][s["frm"]]["name"]
-        return "%s.__init__(%s)" % (sup, render_args(s["k"], s["given"]))
+        return "%s.__init__(%s)" % (sup, render_args(s["k"], s["given"], s.get("nested")))
     if "attr" in u:
         # **kwargs kept in an attribute and forwarded by a method/property, which is exercised right away
         a = u["attr"]
@@ -394,10 +429,10 @@ def render_use(u, prog, self_idx, n):
     c = u["call"]
     t = c["t"]
     if t[0] in ("entry", "cmeth"):
-        return "%s(%s)" % (callee_expr(prog, t), render_args(c["k"], c["given"]))
+        return "%s(%s)" % (callee_expr(prog, t), render_args(c["k"], c["given"], c.get("nested")))
     if t[0] == "self":
-        return "self.m%d_%d(%s)" % (self_idx, t[1], render_args(c["k"], c["given"]))
-    return "return cls(%s)" % render_args(c["k"], c["given"])
+        return "self.m%d_%d(%s)" % (self_idx, t[1], render_args(c["k"], c["given"], c.get("nested")))
+    return "return cls(%s)" % render_args(c["k"], c["given"], c.get("nested"))
 
 
 def attr_use_of(c):
@@ -540,8 +575,17 @@ def m_callable(c, vis=None):
         "params": [{"name": p["name"], "ty": TYPE_ATOMS[p["ty"]], "dflt": None if p["dflt"] is None else dval(p["dflt"][1]), "kind": p["kind"]}
                    for p in c["params"]],
         "varkw": c["varkw"],
-        "uses": [{"g": g["g"], "u": m_use(g["u"], vis)} for g in c["uses"]],
+        # a pop nested in an argument list is `popin` right after its call (AST-visit order); a nested get is a plain get there
+        "uses": [{"g": g["g"], "u": v} for g in c["uses"] for v in m_uses(g["u"], vis)],
     }
+
+
+def m_uses(u, vis=None):
+    out = [m_use(u, vis)]
+    if not ("pop" in u or "get" in u):
+        for x in nested_of(fwd_part(u)):
+            out.append({("popin" if x["kind"] == "pop" else "get"): [x["name"], dval(x["dflt"])]})
+    return out
 
 
 def m_use(u, vis=None):
@@ -557,7 +601,9 @@ def m_use(u, vis=None):
         c = u["call"]
         sub, o, j = c["t"][1:]
         return {"call": {"t": ["cmeth", sub, vis(sub).index((o, j))], "k": c["k"], "given": c["given"]}}
-    return u
+    if "super" in u:
+        return {"super": {"frm": u["super"]["frm"], "k": u["super"]["k"], "given": u["super"]["given"]}}
+    return {"call": {"t": u["call"]["t"], "k": u["call"]["k"], "given": u["call"]["given"]}}
 
 
 def visible_cmeths(prog, mros, sub):
@@ -625,6 +671,7 @@ def universe(prog):
                 ns.add(u["get"][0])
             else:
                 ns.update(fwd_part(u)["given"])
+                ns.update(x["name"] for x in nested_of(fwd_part(u)))
 
     for e in prog["entries"]:
         if e["kind"] == "fn":
@@ -844,10 +891,17 @@ def interp_accepts(obs, n):
 
 
 # ---------------------------------------------------------------- static facts about the program text (for finding signatures)
+def expand_nested(u):
+    """a forwarding use followed by the reads nested in its argument list, as pseudo pop/get uses (AST-visit order)"""
+    if "pop" in u or "get" in u:
+        return [u]
+    return [u] + [{x["kind"]: [x["name"], x["dflt"]], "nested": True} for x in nested_of(fwd_part(u))]
+
+
 def live_uses(c):
     if not c["varkw"]:
         return []
-    return [g["u"] for g in c["uses"] if not (isinstance(g["g"], dict) and g["g"].get("const") is False)]
+    return [v for g in c["uses"] if not (isinstance(g["g"], dict) and g["g"].get("const") is False) for v in expand_nested(g["u"])]
 
 
 def is_forward(u):
@@ -1147,6 +1201,8 @@ def shrink_prog(prog, q, still_bad, budget=150):
                 u = g["u"]
                 if is_forward(u):
                     h = fwd_part(u)
+                    for ni in range(len(h.get("nested") or [])):
+                        cands.append(("nested", ui, ni))
                     if h["k"]:
                         cands.append(("k", ui))
                     for gi in range(len(h["given"])):
@@ -1158,10 +1214,17 @@ def shrink_prog(prog, q, still_bad, budget=150):
                     del tc["uses"][cand[1]]
                 elif cand[0] == "param":
                     del tc["params"][cand[1]]
+                elif cand[0] == "nested":
+                    del fwd_part(tc["uses"][cand[1]]["u"])["nested"][cand[2]]
                 elif cand[0] == "k":
-                    fwd_part(tc["uses"][cand[1]]["u"])["k"] = 0
+                    hh = fwd_part(tc["uses"][cand[1]]["u"])
+                    hh["k"] = 0
+                    hh["nested"] = [x for x in (hh.get("nested") or []) if x["slot"][0] != "pos"]
                 else:
-                    del fwd_part(tc["uses"][cand[1]]["u"])["given"][cand[2]]
+                    hh = fwd_part(tc["uses"][cand[1]]["u"])
+                    gone = hh["given"][cand[2]]
+                    del hh["given"][cand[2]]
+                    hh["nested"] = [x for x in (hh.get("nested") or []) if x["slot"] != ["kw", gone]]
                 budget -= 1
                 try:
                     ok = still_bad(trial)
@@ -1225,6 +1288,8 @@ def features(prog, mros):
                     f.add("call-inherited-classmethod")
                 if "super" in u and u["super"]["frm"] is not None:
                     f.add("super(X,self)")
+                for x in nested_of(h):
+                    f.add("nested-%s-%s" % (x["kind"], x["slot"][0]))
                 if h["k"]:
                     f.add("hard-coded-positional")
                 if h["given"]:
